@@ -65,8 +65,39 @@ def binops(a, b):
     _res.append((a, b, 'divmod', t(lambda: divmod(a, b))))
     _res.append((a, b, 'cmp', t(lambda: (a == b, a != b, a < b, a <= b, a > b, a >= b))))
     _res.append((a, b, 'fold', t(lambda: sum([a, b])), t(lambda: min(a, b)), t(lambda: max(a, b)), t(lambda: min([a, b])), t(lambda: max([b, a]))))
+    inplace(a, b)
+def inplace(a, b):
+    def f1():
+        x = a
+        x += b
+        return x
+    def f2():
+        x = a
+        x -= b
+        return x
+    def f3():
+        x = a
+        x *= b
+        return x
+    def f4():
+        x = a
+        x /= b
+        return x
+    def f5():
+        x = a
+        x //= b
+        return x
+    def f6():
+        x = a
+        x %= b
+        return x
+    _res.append((a, b, 'inplace', t(f1), t(f2), t(f3), t(f4), t(f5), t(f6)))
+def ipow(a, n):
+    x = a
+    x **= n
+    return x
 def powops(a, n):
-    _res.append((a, n, 'pow', t(lambda: a ** n), t(lambda: pow(a, n))))
+    _res.append((a, n, 'pow', t(lambda: a ** n), t(lambda: pow(a, n)), t(lambda: ipow(a, n))))
 def unops(a):
     _res.append((a, 0, 'float', t(lambda: float(a))))
     _res.append((a, 0, 'int', t(lambda: int(a))))
